@@ -71,7 +71,7 @@ def upv_obligations(chk, tag=""):
     TY = ClassVal("Ty", builtin=True)
 
     def setup(it):
-        state = SObj(ClassVal("TracingState", builtin=True), {"unused_undroppable_objs": {}, "node": "NODE"})
+        state = it.call(it.lookup_global(e.module("guppylang_internals.tracing.state"), "TracingState"), [SObj(ClassVal("CompilerContext", builtin=True), {"checked_globals": None}), None, "NODE"], {})   # the real dataclass: fields added later get their defaults
         e.models["guppylang_internals.tracing.state:get_tracing_state"] = lambda it2, a, k: state
         frame = SObj(ClassVal("frame", builtin=True), {"f_code": SObj(ClassVal("code", builtin=True), {"co_filename": "user.py"}), "f_lineno": 7})
         e.models["guppylang_internals.tracing.util:get_calling_frame"] = lambda it2, a, k: frame
@@ -137,7 +137,7 @@ def run(chk):
     TY = ClassVal("Ty", builtin=True)
 
     def setup(it):
-        state = SObj(ClassVal("TracingState", builtin=True), {"unused_undroppable_objs": {}, "node": "NODE"})
+        state = it.call(it.lookup_global(e.module("guppylang_internals.tracing.state"), "TracingState"), [SObj(ClassVal("CompilerContext", builtin=True), {"checked_globals": None}), None, "NODE"], {})   # the real dataclass: fields added later get their defaults
         e.models["guppylang_internals.tracing.state:get_tracing_state"] = lambda it2, a, k: state
         frame = SObj(ClassVal("frame", builtin=True), {"f_code": SObj(ClassVal("code", builtin=True), {"co_filename": "user.py"}), "f_lineno": 7})
         e.models["guppylang_internals.tracing.util:get_calling_frame"] = lambda it2, a, k: frame
